@@ -3,40 +3,75 @@ package main
 import (
 	"fmt"
 	"math/rand"
+	"regexp"
+	"strings"
 
 	rc "github.com/frankkopp/FrankyGo/verifh/refchess"
 )
 
+var re = regexp.MustCompile(`^[NBRQ][a-h][1-8]x[a-h][1-8]`)
+
 func main() {
-	r := rand.New(rand.NewSource(7))
-	found := map[string]bool{}
-	for try := 0; try < 3000000 && len(found) < 8; try++ {
-		b := &rc.Board{Ep: -1, Full: 20, White: true}
-		wk := r.Intn(16) // white king on rank 1-2
-		bk := 40 + r.Intn(24)
-		b.Sq[wk], b.Sq[bk] = 'K', 'k'
-		pf := r.Intn(8)
-		if b.Sq[rc.Sq(pf, 1)] != 0 {
-			continue
-		}
-		b.Sq[rc.Sq(pf, 1)] = 'P'
-		n := 2 + r.Intn(4)
-		for i := 0; i < n; i++ {
-			sq := r.Intn(64)
-			if b.Sq[sq] == 0 {
-				b.Sq[sq] = "qrbnqr"[r.Intn(6)]
+	preludes := []string{
+		"a2a4 b7b5 a4b5 d7d5 b5b6 h7h5 b6a7 h8h6 a7b8n",
+		"h2h4 g7g5 h4g5 e7e5 g5g6 a7a5 g6h7 a8a6 h7g8r",
+		"a2a3 h7h5 b2b3 h5h4 c2c3 h4h3 d2d3 h3g2 e2e3 g2h1n",
+	}
+	r := rand.New(rand.NewSource(11))
+	found := 0
+	for try := 0; try < 400000 && found < 4; try++ {
+		b := rc.MustFEN(rc.StartFEN)
+		var ms []string
+		pre := preludes[try%len(preludes)]
+		ok := true
+		for _, u := range strings.Fields(pre) {
+			f := false
+			for _, l := range b.Legal() {
+				if l.UCI() == u {
+					b = b.Apply(l)
+					ms = append(ms, u)
+					f = true
+					break
+				}
+			}
+			if !f {
+				ok = false
+				break
 			}
 		}
-		if b.Validate() != nil {
+		if !ok {
 			continue
 		}
-		l := b.Legal()
-		if len(l) == 1 && b.Sq[l[0].From] == 'P' && l[0].To-l[0].From == 16 {
-			f := b.FEN()
-			if !found[f] {
-				found[f] = true
-				fmt.Println(f, l[0].UCI())
+		for i := 0; i < 26; i++ {
+			legal := b.Legal()
+			if len(legal) == 0 {
+				break
 			}
+			var hit *rc.Move
+			for k := range legal {
+				if b.Sq[legal[k].To] != 0 && re.MatchString(b.SAN(legal[k], rc.SanOpts{})) {
+					hit = &legal[k]
+					break
+				}
+			}
+			if hit != nil {
+				ms = append(ms, hit.UCI())
+				fmt.Println(strings.Join(ms, " "), " // ", b.SAN(*hit, rc.SanOpts{}))
+				found++
+				break
+			}
+			// prefer knight / rook moves
+			var pick rc.Move
+			pick = legal[r.Intn(len(legal))]
+			for t := 0; t < 8; t++ {
+				c := legal[r.Intn(len(legal))]
+				if p := b.Sq[c.From]; p == 'N' || p == 'n' || p == 'R' || p == 'r' {
+					pick = c
+					break
+				}
+			}
+			ms = append(ms, pick.UCI())
+			b = b.Apply(pick)
 		}
 	}
 }
